@@ -30,6 +30,7 @@ import PyhamModel.Lemmas.Spelling
 import PyhamModel.Lemmas.Annotations
 import PyhamModel.Lemmas.Capstone
 import PyhamModel.Lemmas.CapstoneWF
+import PyhamModel.Lemmas.Clustering
 namespace Pyham.Props
 open Pyham
 
@@ -385,6 +386,13 @@ theorem C16_get_at_level (top : Node) (l : Loc) (hl : l ∈ locs [] top) (g : Ta
         e = .key ∧ (top.nodes.filter (fun n => n.tx == g) = [] ∨
                     ∃ n ∈ top.nodes.filter (fun n => n.tx == g), n.key = l.node.key)) :=
   ⟨fun r h => getAtLevel_ok top l hl g r h, fun e h => getAtLevel_err top l hl g e h⟩
+
+/-- for every ancestral genome of a well-formed analysis the ancestral clustering maps different HOGs
+    to disjoint extant gene sets -/
+theorem C16_clustering_disjoint (H : Ham) (hw : H.WFc) (t : Taxon) (e1 e2 : Node × List String)
+    (h1 : e1 ∈ ancestralClustering H t) (h2 : e2 ∈ ancestralClustering H t) (hne : e1.1.key ≠ e2.1.key)
+    (g : String) (hg1 : g ∈ e1.2) : g ∉ e2.2 :=
+  Pyham.C16_clustering_disjoint H hw t e1 e2 h1 h2 hne g hg1
 
 /-! ## C17 — analyses are read-only; results do not depend on call history -/
 
